@@ -179,7 +179,12 @@ static void part_gauss(const std::vector<unsigned>& ns, bool mixtures) {
                     const double want[4] = {mq, std::sqrt(vq), mp, std::sqrt(vp)};
                     const char* nm[4] = {"position", "length", "mean-energy", "energy-spread"};
                     for (int k = 0; k < 4; k++) {
-                        const double d = (k < 2 ? dq : dp), tol = 0.0125 * d * d + 5e-5 * scale;
+                        // a Gaussian whose nearest grid edge is z standard deviations away is cut there: its variance on the grid is smaller by the fraction
+                        // z phi(z) + Q(z) (one side), its mean moves by sigma phi(z) - allowed for, with a factor two (4e-4 of the variance at z = 4.1)
+                        const double sg = (k < 2 ? std::sqrt(vq) : std::sqrt(vp)), mu = (k < 2 ? mq : mp), lo = (k < 2 ? E.qmin : E.pmin), hi = (k < 2 ? E.qmax : E.pmax);
+                        const double z = std::min(mu - lo, hi - mu) / sg, phi = std::exp(-0.5 * z * z) / std::sqrt(2 * M_PI), Q = 0.5 * std::erfc(z / std::sqrt(2.0));
+                        const double cut = 2 * sg * ((k % 2) ? 0.5 * (z * phi + Q) : phi);
+                        const double d = (k < 2 ? dq : dp), tol = 0.0125 * d * d + 5e-5 * scale + cut;
                         const double err = std::fabs(res[0][k] - want[k]);
                         R.maxnum(std::string("worst_moment_error_over_tol"), err / tol);
                         if (!(err <= tol)) {
@@ -366,8 +371,8 @@ int main(int argc, char** argv) {
     R.rule = "one evaluation = one real PhaseSpace built from enumerated data, renormalised and measured; distinct = FNV of case + resulting data/moments; trivial = single bunch dense data";
     R.sample_every = 5000;
     const bool T = true /* the wide lattices run in both tiers */; const bool D = R.thorough(); (void)D;
-    part_norm(T ? std::vector<unsigned>{8, 9, 16, 17, 24} : std::vector<unsigned>{8, 9});
-    part_gauss(T ? std::vector<unsigned>{32, 33, 48, 64, 65, 96} : std::vector<unsigned>{32, 33, 48}, T);
+    part_norm(D ? std::vector<unsigned>{8, 9, 16, 17, 24, 32, 33} : std::vector<unsigned>{8, 9, 16, 17, 24});
+    part_gauss(D ? std::vector<unsigned>{32, 33, 48, 64, 65, 96, 128, 129} : std::vector<unsigned>{32, 33, 48, 64, 65, 96}, T);
     part_copy(T ? std::vector<unsigned>{8, 9, 16, 17, 32, 33} : std::vector<unsigned>{8, 9, 16});
     part_hist(D ? 6 : 5);
     return R.finish();
